@@ -3,7 +3,7 @@
 # check (or the given checks) against it in a scratch worktree. Appends to /var/tmp/seeded2.txt.
 id=$1; x=$2; shift 2; checks=${@:-$id}
 d=/tmp/mut2/$id/out/$x; out=/var/tmp/seeded2.txt
-v=$(J=8 /verif/lib/verify_seeded.sh $d /tmp/mut2/$id 2>&1 | tail -3 | tr '\n' ' ')
+v=$(J=6 VS_COPY=${VS_COPY:-} /verif/lib/verify_seeded.sh $d /tmp/mut2/$id 2>&1 | tail -3 | tr '\n' ' ')
 echo "$id/$x $v" >> $out
 exec 8>/var/tmp/seeded2-check.lock; flock 8
 wt=/var/tmp/seeded2-$id-$x
